@@ -17,6 +17,9 @@
   decision ::= (kfold r) | (table (((p ...) (p ...)) ...))       indices ::= (((p ...) (p ...)) ...)
   (actor <pickled|raw> ((nsplits decision volatile) ...) (op ...))     operation sequence on splitter actors; cross-validator
                                                                        i = the i-th spec; answers (ok (out ...))
+  (mean d (k ...))                evaluation._metric.mean on the values k/d: (ok num den) | (error StatisticsError)
+  (reduce d ((k ...) ...))        ensemble.pandas_mean on one-column fold predictions of values k/d:
+                                  (ok ((num den) ...)) | (error ValueError)
   op  ::= (new a cv) | (train a (rid ...)) | (getstate s a) | (setstate a s) | (preset a s) | (setparams a cv)
         | (getparams a) | (apply a col (rid ...))
   out ::= unit | (params cv) | (parts ((rid ...) ...)) | (error e) | badref
@@ -24,6 +27,7 @@
 import ForML.Model.Sexp
 import ForML.Model.CrossVal
 import ForML.Model.CrossValActor
+import ForML.Model.CrossValReduce
 open ForML ForML.CrossVal
 
 def bool? : Sexp → Option Bool
@@ -143,7 +147,23 @@ def outSexp : Out → Sexp
   | .error e => .list [.atom "error", errSexp e]
   | .badRef => .atom "badref"
 
+def fracSexp (q : Frac) : Sexp := .list [Sexp.ofInt q.num, Sexp.ofNat q.den]
+
 def stepC12 : Sexp → Sexp
+  | .list [.atom "mean", d, ks] =>
+    match d.nat?, ks.intList? with
+    | some d, some ks =>
+      match meanReducer d ks with
+      | some q => .list [.atom "ok", Sexp.ofInt q.num, Sexp.ofNat q.den]
+      | none => .list [.atom "error", .atom "StatisticsError"]
+    | _, _ => .atom "bad-op"
+  | .list [.atom "reduce", d, .list folds] =>
+    match d.nat?, folds.mapM Sexp.intList? with
+    | some d, some folds =>
+      match stackReduce d folds with
+      | .ok out => .list [.atom "ok", .list (out.map fracSexp)]
+      | .error e => .list [.atom "error", errSexp e]
+    | _, _ => .atom "bad-op"
   | .list [.atom "actor", t, .list specs, .list ops] =>
     match transfer? t, specs.mapM cvSpec?, ops.mapM op? with
     | some t, some specs, some ops => .list [.atom "ok", .list ((Machine.init.run (specSplits specs) t ops).map outSexp)]
